@@ -203,7 +203,8 @@ class Env:
         top.propagate = False
         logging.disable(logging.NOTSET)
         lg = logging.getLogger("pyairtouch.comms.socket")
-        lg.setLevel(logging.WARNING)
+        # the package has branches that depend on the log level (`isEnabledFor(DEBUG)`): half of the runs have debug logging on
+        lg.setLevel(logging.DEBUG if getattr(self, "debug_log", False) else logging.WARNING)
         for h in list(lg.handlers):
             if isinstance(h, DropLog):
                 lg.removeHandler(h)
@@ -335,20 +336,30 @@ class Env:
         except S.QueueOverflowError:
             self.rec.emit("reject", sid, "overflow", ticks(self.loop.time()))
         except Exception as e:  # noqa: BLE001
-            self.rec.emit("sendRaised", sid, type(e).__name__, ticks(self.loop.time()))
+            self.rec.emit("sendRaised", sid, type(e).__name__, ticks(self.loop.time()), kind)
 
     async def _api_open(self):
         self.rec.emit("apiOpen", ticks(self.loop.time()))
-        await self.sock.open_socket()
+        try:
+            await self.sock.open_socket()
+        except Exception as e:  # noqa: BLE001
+            self.rec.emit("apiRaised", "open_socket", type(e).__name__, ticks(self.loop.time()))
 
     async def _api_close(self):
         self.rec.emit("apiClose", ticks(self.loop.time()))
-        await self.sock.close()
+        try:
+            await self.sock.close()
+        except Exception as e:  # noqa: BLE001
+            self.rec.emit("apiRaised", "close", type(e).__name__, ticks(self.loop.time()))
+            return
         self.rec.emit("apiCloseDone", ticks(self.loop.time()))
 
     async def _api_reset(self):
         self.rec.emit("apiReset", ticks(self.loop.time()))
-        await self.sock.reset_connection()
+        try:
+            await self.sock.reset_connection()
+        except Exception as e:  # noqa: BLE001
+            self.rec.emit("apiRaised", "reset_connection", type(e).__name__, ticks(self.loop.time()))
 
     # ------------------------------------------------------------------ peer frames
     def status_frame(self):
@@ -554,6 +565,8 @@ class Env:
 
 
 def run_script(script, gen=4, idle_ticks=0):
+    import zlib
+    Env.debug_log = bool(zlib.crc32(repr([tuple(op) for op in script]).encode()) & 1)
     env = Env(gen)
     return env.run(script, idle_ticks)
 
